@@ -197,7 +197,11 @@ pub fn run_script(check: &'static dyn Check, script: Value, keep_full_log: bool)
     let panics = take_panics();
     let got = result.lock().unwrap().take();
     match (joined, got) {
-        (Ok(()), Some((r, (ev_hash, ev_count, ev_tail, counters, ev_full), sim_us))) => {
+        (Ok(()), Some((mut r, (ev_hash, ev_count, ev_tail, counters, ev_full), sim_us))) => {
+            // a panic raised by harness code inside some task (tokio catches it, the task just ends) is a harness error
+            if let Some(p) = panics.iter().find(|p| p.contains("rnsim/src/") || p.contains("simtokio/src/")) {
+                r.violation = Some(Violation::new("harness.panic_in_harness_task", p.clone()));
+            }
             let ok = r.violation.is_none();
             Outcome {
                 check: id,
